@@ -513,6 +513,16 @@ func run(c *engine.Ctx) {
 		exec(p + " = 'v' or ../ll = 'w'")
 		exec("not(../ll = 'zz') and /" + p)
 	}
+	// names of every class an NCName may have, and names that are also operator, function or
+	// node-type names, as step, as key and behind a prefix
+	for _, nm := range []string{"a.b", "a-b", "_a", "a_", "A", "Ab1", "\u00e9", "a\u00e9", "x.y-z_0", "\u65e5\u672c", "div", "and", "or", "mod", "text", "node", "comment", "current", "deref", "string", "true", "not", "k"} {
+		for _, f := range []string{"/%s", "../%s/a", "a/%s", "/a[%s = 'v']/b", "p:%s", "/a/%s[k = 'v']", "/a/p:%s[k = ../x]/%s", "%s/%s = ../%s", "current()/../%s"} {
+			if c.Expired() {
+				return
+			}
+			exec(strings.ReplaceAll(f, "%s", nm))
+		}
+	}
 	c.Sample(map[string]any{"expr": "/a/b[k = current()/../x]/c = 'v'", "context": "/top/ctx", "expected_requests": "Navigate(root=0)->/top/x GetValue@/top/x Navigate(root=1)->/a/b[k=/top/x]/c GetValue@..."})
 }
 
